@@ -267,8 +267,8 @@ func (p *Prog) verifyFunction(f *ssa.Function, c *Contract) (res *FnResult) {
 	}
 	if c.Fresh && nres > 0 {
 		r0 := vars["result0"].t
-		if nres > 1 {
-			r0 = vars["result0"].t
+		if r0.Sort == sSlice {
+			r0 = slBase(r0)
 		}
 		q.oblige(key+"/post.fresh", "post", anyRet, and(le(a0, r0), lt(r0, q.heapGet(hf, allocKey))), p.fset.Position(f.Pos()), "result is freshly allocated")
 	}
